@@ -3,6 +3,7 @@
 mod api;
 mod dump;
 mod gen;
+mod specgen;
 
 use dump::*;
 use gen::*;
@@ -133,6 +134,7 @@ fn emit_case(out: &mut String, id: &str, p: &[u32], f: &str, no_opt: bool, hays:
         writeln!(out, "{}", nl).unwrap();
     }
     program_block(&cr, out);
+    let re_x = arbitrary_twin(&cr);
     let re = Regex::from(cr);
     for (t, ascii_only) in hays {
         let starts = if all_starts { boundaries(t) } else { vec![0] };
@@ -143,10 +145,26 @@ fn emit_case(out: &mut String, id: &str, p: &[u32], f: &str, no_opt: bool, hays:
                 let (st, steps, ms) = run_engine(&re, e, t, s, budget);
                 writeln!(out, "R {} {} {} {}", e.name(), st, steps, matches_tokens(&ms)).unwrap();
             }
+            if let Some(rx) = &re_x {
+                for (e, nm) in [(Engine::Bt8, "btx"), (Engine::Pk8, "pkx")] {
+                    let (st, steps, ms) = run_engine(rx, e, t, s, budget);
+                    writeln!(out, "R {} {} {} {}", nm, st, steps, matches_tokens(&ms)).unwrap();
+                }
+            }
         }
     }
     writeln!(out, "E").unwrap();
     true
+}
+
+/// The same program with the start predicate replaced by Arbitrary (None if it already is).
+fn arbitrary_twin(cr: &verif::CompiledRegex) -> Option<Regex> {
+    if matches!(cr.start_pred, verif::StartPredicate::Arbitrary) {
+        return None;
+    }
+    let mut c2 = cr.clone();
+    c2.start_pred = verif::StartPredicate::Arbitrary;
+    Some(Regex::from(c2))
 }
 
 fn cmd_exec(args: &[String]) {
@@ -194,6 +212,13 @@ fn cmd_exec(args: &[String]) {
         let (p, f) = gen_pattern(&mut r);
         do_case(&cps(&p), &f, &mut r, &mut w);
     }
+}
+
+pub fn api_cps_hex(s: &str) -> String {
+    if s.is_empty() {
+        return "-".into();
+    }
+    s.chars().map(|c| format!("{:x}", c as u32)).collect::<Vec<_>>().join(",")
 }
 
 fn unhex_cps(s: &str) -> Vec<u32> {
@@ -268,12 +293,19 @@ fn emit_case_at(out: &mut String, id: &str, p: &[u32], f: &str, no_opt: bool, t:
         writeln!(out, "{}", nl).unwrap();
     }
     program_block(&cr, out);
+    let re_x = arbitrary_twin(&cr);
     let re = Regex::from(cr);
     writeln!(out, "H {} {}", hex(t.as_bytes()), start).unwrap();
     let engines: &[Engine] = if ascii_only { &[Engine::Bt8, Engine::Pk8, Engine::BtA, Engine::PkA] } else { &[Engine::Bt8, Engine::Pk8] };
     for &e in engines {
         let (st, steps, ms) = run_engine(&re, e, t, start, budget);
         writeln!(out, "R {} {} {} {}", e.name(), st, steps, matches_tokens(&ms)).unwrap();
+    }
+    if let Some(rx) = &re_x {
+        for (e, nm) in [(Engine::Bt8, "btx"), (Engine::Pk8, "pkx")] {
+            let (st, steps, ms) = run_engine(rx, e, t, start, budget);
+            writeln!(out, "R {} {} {} {}", nm, st, steps, matches_tokens(&ms)).unwrap();
+        }
     }
     writeln!(out, "E").unwrap();
     true
@@ -288,6 +320,7 @@ fn main() {
         Some("api") => api::cmd_api(&args[2..]),
         Some("escape") => api::cmd_escape(&args[2..]),
         Some("apicases") => api::cmd_apicases(&args[2..]),
+        Some("spec") => specgen::cmd_spec(&args[2..]),
         _ => {
             eprintln!("usage: rvharness exec <seed> <npatterns> <nhays> <budget> [corpus]");
             std::process::exit(2);
